@@ -326,6 +326,63 @@ func realRetryReattach(r *ev.Run) {
 	}
 }
 
+// realInspect: a live mrp holds the lock of a pipestance that is in state
+// failed (it waits before its automatic retry); a second mrp started with
+// --inspect looks at it.  The owner's lock must still be there afterwards.
+func realInspect(r *ev.Run) {
+	if os.Getenv("VERIF_NO_TIERB") != "" {
+		return
+	}
+	p := progen.Dataflow(progen.DataflowParams{Kind: "int", Src: "gen", Size: 2, Cons: "add"})
+	first := "ID." + psx.Psid + ".TOP.GEN.fork0.chnk0.main"
+	optsA := psx.BOptions{AutoRetry: 1, RetryWait: 12, Fault: &psx.Fault{Job: first, Kind: "kill-monitor", Times: 1}, Timeout: 60 * time.Second}
+	a, err := psx.StartB(p, &optsA)
+	if err != nil {
+		r.Inconclusive("real inspect: " + err.Error())
+		return
+	}
+	defer os.RemoveAll(a.Dir)
+	defer a.KillAll()
+	lock := filepath.Join(a.PsDir, "_lock")
+	// wait until the owner has seen the failure and waits for its retry
+	waiting := false
+	for i := 0; i < 400 && !waiting; i++ {
+		if b, err := os.ReadFile(filepath.Join(a.PsDir, "_log")); err == nil && strings.Contains(string(b), "before attempting a retry") {
+			waiting = true
+		}
+		time.Sleep(50 * time.Millisecond)
+	}
+	_, lerr := os.Lstat(lock)
+	r.Eval("real-inspect")
+	if !waiting || lerr != nil {
+		r.Inconclusive(fmt.Sprintf("real inspect: the owner did not reach its retry wait holding the lock (waiting=%v lock=%v)", waiting, lerr == nil))
+		return
+	}
+	optsB := psx.BOptions{Dir: a.Dir, ExtraArgs: []string{"--inspect"}, Timeout: 20 * time.Second}
+	b, err := psx.StartB(p, &optsB)
+	if err != nil {
+		r.Inconclusive("real inspect: " + err.Error())
+		return
+	}
+	defer b.KillAll()
+	// the inspector's loop runs every three seconds
+	gone := false
+	for i := 0; i < 140 && !gone; i++ {
+		time.Sleep(50 * time.Millisecond)
+		if _, err := os.Lstat(lock); err != nil {
+			gone = true
+		}
+	}
+	if gone && a.Cmd.ProcessState == nil {
+		r.Outcome("violation")
+		r.Report(ev.Finding{Sig: "C15:real-inspect-removes-owners-lock",
+			What: "a live mrp (waiting before its automatic retry, pipestance in state failed) holds _lock; a second mrp started with --inspect on the same pipestance removed that lock within 7 s, so a third instance could attach for writing: " + ev.Short(psx.ConsoleTail(b.Output(), 4), 300),
+			Case: Case{Base: -1, Kind: "real-inspect"}})
+		return
+	}
+	r.Outcome("real-inspect:lock-kept")
+}
+
 func lockHistories(r *ev.Run, bs []func() *progen.Program) {
 	p := bs[1]()
 	var stages []string
@@ -449,6 +506,7 @@ func main() {
 	}
 	lockHistories(r, bs)
 	realRetryReattach(r)
+	realInspect(r)
 	r.Assume("edits the repository documents as ignored (retain, resources, volatile, chunk parameters) are not in the catalogue")
 	r.Finish()
 }
